@@ -526,6 +526,23 @@ def check_interpolation(ctx):
         d['loading'] = d['loading'] * ml
         return pygaps.PointIsotherm(isotherm_data=d, pressure_key='pressure', loading_key='loading', **base_iso.to_dict())
 
+    def mk_gaps():
+        """Missing values in a SUPPLEMENTARY column (first and last row of a branch among them): pressure and loading are complete."""
+        d = base_iso.data_raw.copy()
+        d['extra'] = [float('nan'), 1.0, float('nan'), float('nan'), 2.0, float('nan')][:len(d)]
+        d['remark'] = [None, 'a', 'b', None, None, 'c'][:len(d)]
+        return pygaps.PointIsotherm(isotherm_data=d, pressure_key='pressure', loading_key='loading', **base_iso.to_dict())
+
+    def mk_reordered():
+        """Rows of each branch stored against the conventional direction (adsorption from high to low pressure, desorption upwards)."""
+        d = base_iso.data_raw.copy()
+        a, b = d[d['branch'] == 0].iloc[::-1], d[d['branch'] == 1].iloc[::-1]
+        return pygaps.PointIsotherm(isotherm_data=pandas.concat([a, b]).reset_index(drop=True), pressure_key='pressure', loading_key='loading', **base_iso.to_dict())
+
+    for mkx, tagx in ((mk_gaps, 'missing values in supplementary columns'), (mk_reordered, 'branches stored in reverse row order')):
+        e2, n2 = _interp_clauses(ctx, mkx, {'magnitude': tagx})
+        ev += e2
+        nt += n2
     for mp, ml in ((1.0, 1.0), (1e-9, 1.0), (1.0, 1e-9), (1e-9, 1e-9), (1e6, 1e6), (3e-7, 2e-8)):
         e2, n2 = _interp_clauses(ctx, lambda: mk_scaled(mp, ml), {'magnitude': 'ordinary' if (mp, ml) == (1.0, 1.0) else f'p x {mp:g}, n x {ml:g}'})
         ev += e2
